@@ -23,6 +23,37 @@ def node(c, k=None, ch=(), id_="", src="", sets=None):
     return {"c": c, "k": k, "ch": list(ch), "id": id_, "src": src, "sets": sets}
 
 
+CATEGORIES = ["CONSTANT", "PARAMETER", "VARIABLE"]
+vary_attrs = {"p": 0.5}          # share of nodes that get further Referable attributes (set by the harness)
+
+
+def gen_attrs(rng, n, in_list=False):
+    """Other attributes of a Referable that reference construction / resolution / backend dispatch must NOT depend
+    on: category, display_name, description, semantic_id, qualifier, extension, kind, order_relevant."""
+    a = {}
+    if n["c"] == "SubmodelElementList" and rng.random() < .5:
+        a["order_relevant"] = False
+    if rng.random() < vary_attrs["p"]:
+        if rng.random() < .6:
+            a["category"] = rng.choice(CATEGORIES)
+        if rng.random() < .3:
+            a["display_name"] = rng.choice(["name", "CONSTANT"])
+        if rng.random() < .3:
+            a["description"] = rng.choice(["text", ""]) or "d"
+        if n["c"] not in ("AssetAdministrationShell", "ConceptDescription"):
+            if not in_list and rng.random() < .25:
+                a["semantic_id"] = rng.choice(["urn:sem:1", "urn:sem:2"])
+            if rng.random() < .2:
+                a["qualifier"] = rng.choice(["q1", "CONSTANT"])
+        if rng.random() < .2:
+            a["extension"] = rng.choice(["e1", "order_relevant"])
+        if n["c"] == "Submodel" and rng.random() < .3:
+            a["kind"] = "TEMPLATE"
+    if a:
+        n["attrs"] = a
+    return n
+
+
 def gen_elem(rng, depth, key, force=None, stats=None):
     """one submodel element with id_short `key` (None inside a list)"""
     if force is not None:
@@ -34,7 +65,7 @@ def gen_elem(rng, depth, key, force=None, stats=None):
     if stats is not None:
         stats[c] = stats.get(c, 0) + 1
     if c in LEAVES:
-        return node(c, key)
+        return gen_attrs(rng, node(c, key), key is None)
     width = rng.randint(0, 3)
     if c == "SubmodelElementList":
         et = rng.choice(LEAVES + CONTAINERS) if depth > 1 else rng.choice(LEAVES)
@@ -43,27 +74,28 @@ def gen_elem(rng, depth, key, force=None, stats=None):
             width = rng.choice(LONG_LIST + (LONG_LIST_THOROUGH if long_lists["thorough"] and rng.random() < .3 else []))
         n = node(c, key, [gen_elem(rng, depth - 1, None, force=et, stats=stats) for _ in range(width)])
         n["elem"] = et
-        return n
+        return gen_attrs(rng, n, key is None)
     names = rng.sample(ID_SHORTS, width)
     if c == "AnnotatedRelationshipElement":
-        return node(c, key, [gen_elem(rng, 0, nm, force=rng.choice(DATA_ELEMENTS), stats=stats) for nm in names])
+        return gen_attrs(rng, node(c, key, [gen_elem(rng, 0, nm, force=rng.choice(DATA_ELEMENTS), stats=stats) for nm in names]),
+                         key is None)
     ch = [gen_elem(rng, depth - 1, nm, stats=stats) for nm in names]
     if c == "Operation":
         a = rng.randint(0, len(ch))
         b = rng.randint(a, len(ch))
-        return node(c, key, ch, sets=[a, b - a, len(ch) - b])
-    return node(c, key, ch)
+        return gen_attrs(rng, node(c, key, ch, sets=[a, b - a, len(ch) - b]), key is None)
+    return gen_attrs(rng, node(c, key, ch), key is None)
 
 
 def gen_root(rng, depth, id_, stats=None):
     r = rng.random()
     key = rng.choice([None, "sm", "a", "Root"])
     if r < 0.08:
-        return node("AssetAdministrationShell", key, id_=id_)
+        return gen_attrs(rng, node("AssetAdministrationShell", key, id_=id_))
     if r < 0.16:
-        return node("ConceptDescription", key, id_=id_)
+        return gen_attrs(rng, node("ConceptDescription", key, id_=id_))
     names = rng.sample(ID_SHORTS, rng.randint(0, 3))
-    return node("Submodel", key, [gen_elem(rng, depth - 1, nm, stats=stats) for nm in names], id_=id_)
+    return gen_attrs(rng, node("Submodel", key, [gen_elem(rng, depth - 1, nm, stats=stats) for nm in names], id_=id_))
 
 
 def gen_provider(rng, depth, nstores, stats=None):
@@ -140,7 +172,7 @@ def build(t, registry=None, pos=(), attach=False):
         o = model.SubmodelElementCollection(k, value=ch)
     elif c == "SubmodelElementList":
         et = getattr(model, t["elem"])
-        o = model.SubmodelElementList(k, et, value=ch,
+        o = model.SubmodelElementList(k, et, value=ch, order_relevant=(t.get("attrs") or {}).get("order_relevant", True),
                                       value_type_list_element=model.datatypes.Int if et in (model.Property, model.Range) else None)
     elif c == "Entity":
         o = model.Entity(k, model.EntityType.CO_MANAGED_ENTITY, statement=ch)
@@ -153,6 +185,21 @@ def build(t, registry=None, pos=(), attach=False):
         raise ValueError(f"reftrees.build: class {c} unknown to the harness")
     if t.get("src"):
         o.source = t["src"]
+    a = t.get("attrs") or {}
+    if "category" in a:
+        o.category = a["category"]
+    if "display_name" in a:
+        o.display_name = model.MultiLanguageNameType({"en": a["display_name"]})
+    if "description" in a:
+        o.description = model.MultiLanguageTextType({"en": a["description"]})
+    if "semantic_id" in a:
+        o.semantic_id = model.ExternalReference((model.Key(model.KeyTypes.GLOBAL_REFERENCE, a["semantic_id"]),))
+    if "qualifier" in a:
+        o.qualifier.add(model.Qualifier(a["qualifier"], model.datatypes.String))
+    if "extension" in a:
+        o.extension.add(model.Extension(a["extension"]))
+    if a.get("kind") == "TEMPLATE":
+        o.kind = model.ModellingKind.TEMPLATE
     if registry is not None:
         registry[id(o)] = (pos, o)
     if attach:
